@@ -233,7 +233,11 @@ func c10Case(w *core.W, j int) {
 	case 13:
 		zone = model.Name{[]byte("Tld")}
 	}
-	k, err := getKey(alg, bits, zone.Pres(), 257, j%2)
+	// zone keys in every shape a validator meets: ZSK, KSK, revoked (RFC 5011 bit 0x0080) and with a
+	// reserved bit set (RFC 4034 s.2.1.1: reserved bits are ignored on receipt): a zone key has bit 7
+	flags := []uint16{257, 256, 257, 385, 257, 256, 384, 257, 0x8100, 258, 257}[j%11]
+	w.Cover("key_flags", fmt.Sprint(flags))
+	k, err := getKey(alg, bits, zone.Pres(), flags, j%2)
 	if alg == dns.ED25519 && (j/len(allAlgs))%3 == 0 {
 		// a key whose tag computation needs the second carry (RFC 4034 Appendix B adds the carry once)
 		k, err = doubleCarryKey(zone.Pres(), 257)
